@@ -93,6 +93,7 @@ package diff
 //@ ensures vs_stringT(type1) && vs_stringT(type2) && type1.MaxLength != nil && type2.MaxLength != nil && *type2.MaxLength < *type1.MaxLength ==> vs_hasCode(result, len(diffs), NarrowedType)
 //@ ensures vs_stringT(type1) && vs_stringT(type2) && type1.MaxLength == nil && type2.MaxLength != nil ==> vs_hasCode(result, len(diffs), AddedConstraint)
 //@ ensures vs_stringT(type1) && vs_stringT(type2) && type1.Pattern != type2.Pattern ==> vs_hasCode(result, len(diffs), ChangedType)
+//@ ensures @C13 vs_stringT(type1) && vs_stringT(type2) && len(type1.Enum) == 0 && len(type2.Enum) > 0 ==> vs_hasCode(result, len(diffs), AddedConstraint)
 
 //@ func CompareEnums
 //@ props C12 C13 C14
